@@ -105,6 +105,7 @@ type FnTr struct {
 	excEdges []excEdge   // refute mode: precise exceptional edges
 	privAllocObj  map[*ssa.Alloc]*Term // private locals of the top-level function: object ids
 	privAllocList []*ssa.Alloc
+	usesMemo      map[string]bool
 	owners        map[string][]objOwner // object id key -> every allocation site that may own it
 	excSlots      []excSlot // proof mode: content of the result slots at every covered panic point
 	stateRecs map[string]*SpecFunc
@@ -808,8 +809,11 @@ func (tr *FnTr) noteExcSlots(reach *Term) {
 		obj := top.privAllocObj[a]
 		n := sizeOf(a.Type().Underlying().(*types.Pointer).Elem())
 		for k := 0; k < n && k < 8; k++ {
-			vals = append(vals, Select(Select(tr.st.Mem, obj), Int(int64(k))))
+			vals = append(vals, Select(SelectDeep(tr.st.Mem, obj), Int(int64(k))))
 		}
+	}
+	if os.Getenv("GOCV_DEBUG_EXC") != "" && len(vals) > 0 && vals[0].IntConst() == nil {
+		fmt.Fprintf(os.Stderr, "excslot @%s: %.300s\n   mem=%.300s\n", tr.pos(tr.curInstr.Pos()), vals[0].String(), expandDef(tr.st.Mem).String())
 	}
 	top.excSlots = append(top.excSlots, excSlot{Reach: reach, Vals: vals})
 }
@@ -934,7 +938,7 @@ func (tr *FnTr) procLoop(l *Loop) {
 					if os.Getenv("GOCV_DEBUG_PRIV") != "" {
 						fmt.Fprintf(os.Stderr, "PRIV loop %s keeps %s (%s) obj=%s block=%d\n", lname, a.Name(), a.Comment, obj.String(), a.Block().Index)
 					}
-					hst.Mem = Store(hst.Mem, obj, Select(est.Mem, obj))
+					hst.Mem = Store(hst.Mem, obj, SelectDeep(est.Mem, obj))
 				}
 			}
 			hst.Mem = tr.vc.Def("mem_"+lname+"_p", hst.Mem)
